@@ -163,9 +163,9 @@ type m9box struct {
 }
 
 type m9model struct {
-	boxes      map[string]*m9box
-	oldValid   map[string][]uint32 // UIDVALIDITY values a name has had
-	nextMsgID  int
+	boxes     map[string]*m9box
+	oldValid  map[string][]uint32 // UIDVALIDITY values a name has had
+	nextMsgID int
 }
 
 type m9sess struct {
